@@ -426,7 +426,7 @@ BOUNDED = [bounded("fa_repro.py", "phases", "C09.estep-acc-mstep",
                    "marginal likelihood of each phase non-decreasing over 6 E/M iterations (float64, rel. tol. 1e-9); subspaces finite with the stated shapes")]
 SHARED = [("C07", "leaf_compute_fn_y_i", ["C07.fn_y"]), ("C07", "fn_x_all", ["C07.fn_x"]), ("C07", "fn_z_all", ["C07.fn_z"]),
           ("C07", "prec_all", ["C07.prec.x", "C07.prec.y", "C07.prec.z", "C07.uprod", "C07.vprod"])]
-REPLAY = [("C09.reduce", "fa_repro.py", "dask_classes", {}), ("C09.handover", "fa_repro.py", "dask_classes", {}), ("C09.ascent", "fa_repro.py", "phase_ascent", {}), ("C09", "fa_repro.py", "phases", {})]
+REPLAY = [("C09.estep", "fa_repro.py", "dask_classes", {}), ("C09.reduce", "fa_repro.py", "dask_classes", {}), ("C09.handover", "fa_repro.py", "dask_classes", {}), ("C09.ascent", "fa_repro.py", "phase_ascent", {}), ("C09", "fa_repro.py", "phases", {})]
 LEVEL = "proof"
 TECHNIQUE = "contract-based deductive verification (per-class E-steps of the three phases, finalisers, M-steps, reduction, phase hand-over, leaf formulas) + bounded exact-rational execution of the list-path E-steps (objrun)"
 LEVEL_TEXT = ("Proof, for all shapes, ranks, class counts and session counts, that each phase of JFAMachine.fit is an exact E-step followed by the M-step that "
